@@ -513,11 +513,19 @@ class SymAlg(object):
     @staticmethod
     def lift(x): return lift(x)
     @staticmethod
-    def lt(a, b): return lt_term(lift(a), lift(b))
+    def _2(a, b):
+        a, b = lift(a), lift(b)
+        if a is NAN or b is NAN:
+            raise PathAbort('nan (inf-inf on concrete floats)')
+        return a, b
     @staticmethod
-    def le(a, b): return z3.Not(lt_term(lift(b), lift(a)))
+    def lt(a, b): return lt_term(*SymAlg._2(a, b))
     @staticmethod
-    def eq(a, b): return eq_term(lift(a), lift(b))
+    def le(a, b):
+        a, b = SymAlg._2(a, b)
+        return z3.Not(lt_term(b, a))
+    @staticmethod
+    def eq(a, b): return eq_term(*SymAlg._2(a, b))
     @staticmethod
     def And(*c): return z3.And(*c) if c else z3.BoolVal(True)
     @staticmethod
@@ -552,11 +560,21 @@ class NumAlg(object):
     @staticmethod
     def lift(x): return x
     @staticmethod
-    def lt(a, b): return a < b
+    def _nan(a, b):
+        if a != a or b != b:
+            raise PathAbort('nan (inf-inf on concrete floats)')
     @staticmethod
-    def le(a, b): return a <= b
+    def lt(a, b):
+        NumAlg._nan(a, b)
+        return a < b
     @staticmethod
-    def eq(a, b): return a == b
+    def le(a, b):
+        NumAlg._nan(a, b)
+        return a <= b
+    @staticmethod
+    def eq(a, b):
+        NumAlg._nan(a, b)
+        return a == b
     @staticmethod
     def And(*c): return all(c)
     @staticmethod
